@@ -16,7 +16,9 @@ Digits == {"0", "1", "2", "3", "4", "5", "6", "7", "8", "9"}
 NameOK(n) == Len(n) >= 4 /\ SubSeq(n, 1, 1) \in Digits /\ SubSeq(n, 2, 2) \in Digits /\ SubSeq(n, 3, 3) = "-"
 IdxOf(n) == SubSeq(n, 1, 2)
 BaseOf(n) == SubSeq(n, 4, Len(n))
-Launchable(e) == e.kind = "exec" /\ NameOK(e.name)
+\* executable = any of the three execute bits (owner only, group only, other only, all)
+ExecKinds == {"exec", "execu", "execg", "execo"}
+Launchable(e) == e.kind \in ExecKinds /\ NameOK(e.name)
 
 ConfigOf(e, dropins) ==
   LET own == {d \in dropins : d.file = e.name \o ".conf"}
@@ -33,6 +35,7 @@ VARIABLES sc, emitted
 E(n, k, b) == [name |-> n, kind |-> k, behaviour |-> b]
 D(f, c) == [file |-> f, content |-> c]
 Behaviours == {"healthy", "exit", "noregister", "dielater"}
+\* "failsync": registers, is configured, fails its synchronization
 
 \* directory contents: two probes with each behaviour, among non-executables and directories
 Dirs2 == {<<E("20-bb", "exec", b2), E("10-aa", "exec", b1), E("30-noexec", "noexec", ""), E("40-dir", "dir", ""), E("readme", "noexec", "")>> :
@@ -42,15 +45,27 @@ Dirs3 == {<<E("05-cc", "exec", b3), E("90-aa", "exec", "healthy"), E("50-bb", "e
 Small == {<<>>, <<E("10-only", "exec", "healthy")>>, <<E("00-a", "exec", "healthy"), E("99-z", "exec", "healthy")>>,
           <<E("10-x.y", "exec", "healthy"), E("nodash", "noexec", ""), E("11-dir", "dir", "")>>}
 
-\* every pair of drop-in files for one plugin: index-name, name, both, neither; plus a foreign one
+\* every pair of drop-in files for one plugin: index-name, name, both, neither; plus a foreign one;
+\* and an index-name file that exists but is empty (it still is the plugin's configuration)
 DropSets(n) ==
   {S \cup X : S \in SUBSET {D(n \o ".conf", "cfg-of-" \o n), D(BaseOf(n) \o ".conf", "cfg-of-base-" \o BaseOf(n))},
              X \in {{}, {D("99-other.conf", "foreign")}}}
+  \cup {{D(n \o ".conf", ""), D(BaseOf(n) \o ".conf", "cfg-of-base-" \o BaseOf(n))}, {D(n \o ".conf", "")}}
+
+\* execute bits; a plugin failing its synchronization at each position; stale NRI_PLUGIN_* variables in the runtime's own environment
+ExecBits == <<E("10-owner", "execu", "healthy"), E("20-group", "execg", "healthy"), E("30-other", "execo", "healthy"),
+              E("40-none", "noexec", ""), E("50-all", "exec", "healthy")>>
+FailSync == {<<E("10-aa", "exec", IF k = 1 THEN "failsync" ELSE "healthy"), E("20-bb", "exec", IF k = 2 THEN "failsync" ELSE "healthy"),
+               E("30-cc", "exec", IF k = 3 THEN "failsync" ELSE "healthy")>> : k \in 1..3}
+            \cup {<<E("10-only", "exec", "failsync")>>}
 
 Scenarios ==
-  CASE Mode = "dirs" -> {[entries |-> d, dropins |-> {}] : d \in Dirs2 \cup Dirs3 \cup Small}
-    [] Mode = "dropins" -> {[entries |-> <<E("20-bb", "exec", "healthy"), E("10-aa", "exec", "healthy")>>, dropins |-> da \cup db] :
-                              da \in DropSets("10-aa"), db \in DropSets("20-bb")}
+  CASE Mode = "dirs" -> {[entries |-> d, dropins |-> {}, stale |-> FALSE] : d \in Dirs2 \cup Dirs3 \cup Small}
+    [] Mode = "dropins" -> {[entries |-> <<E("20-bb", "exec", "healthy"), E("10-aa", "exec", "healthy")>>, dropins |-> da \cup db,
+                             stale |-> FALSE] : da \in DropSets("10-aa"), db \in DropSets("20-bb")}
+    [] Mode = "more" -> {[entries |-> d, dropins |-> {}, stale |-> FALSE] : d \in {ExecBits} \cup FailSync}
+                        \cup {[entries |-> <<E("10-aa", "exec", "healthy"), E("20-bb", "exec", "healthy")>>,
+                               dropins |-> {D("10-aa.conf", "cfg-of-10-aa")}, stale |-> TRUE]}
 
 GInit == sc \in Scenarios /\ emitted = FALSE
 GEmit == ~emitted /\ PrintT(<<"CASE", ToJson(sc)>>) /\ emitted' = TRUE /\ UNCHANGED sc
@@ -59,5 +74,5 @@ GSpec == GInit /\ [][GEmit]_<<sc, emitted>>
 \* design-level facts over the generated scenarios
 ConfigPrecedence ==
   \A i \in DOMAIN sc.entries : LET e == sc.entries[i] IN
-     Launchable(e) => ((\E d \in sc.dropins : d.file = e.name \o ".conf") => ConfigOf(e, sc.dropins) = "cfg-of-" \o e.name)
+     Launchable(e) => \A d \in sc.dropins : d.file = e.name \o ".conf" => ConfigOf(e, sc.dropins) = d.content
 =============================================================================
